@@ -1348,7 +1348,10 @@ impl Hist {
                     }
                     return s;
                 }
-                let mut s = format!("H swap {} {} {} {} {}", amt, limit, b(ein), b(dir), starts.len());
+                // C20: the same swap as a QUOTE of the SDK on the current state (read-only; the Lean side answers with its
+                // model of the SDK's compute_swap)
+                let op = if r.chance(1, 3) { "sdkq" } else { "swap" };
+                let mut s = format!("H {} {} {} {} {} {}", op, amt, limit, b(ein), b(dir), starts.len());
                 for x in starts {
                     s += &format!(" {}", x);
                 }
@@ -1438,6 +1441,27 @@ impl Family for Hist {
                 }
                 Err(_) => "err HarnessPanic | ".to_string() + &w.digest(),
             };
+        }
+        if t[1] == "sdkq" {
+            let n: usize = t[6].parse().unwrap();
+            let starts: Vec<i32> = (0..n).map(|k| t[7 + k].parse().unwrap()).collect();
+            let q = w.sdk_swap(p64(t[2]), p128(t[3]), pb(t[4]), pb(t[5]), &starts);
+            ctx.tag("sdkq");
+            let line = match q {
+                Ok((a, bb, fee)) => {
+                    ctx.tag("sdkq_ok");
+                    if w.af.is_some() {
+                        ctx.tag("sdkq_ok_adaptive");
+                    }
+                    format!("ok {} {} {}", a, bb, fee)
+                }
+                Err(e) if e == "Panic" => "err Panic".to_string(),
+                Err(_) => {
+                    ctx.tag("sdkq_err");
+                    "err sdk".to_string()
+                }
+            };
+            return line + " | " + &w.digest();
         }
         if t[1] == "xlock" {
             let o = std::panic::catch_unwind(std::panic::AssertUnwindSafe(|| w.x_lock(&t)));
